@@ -80,4 +80,15 @@ def handle (j : Json) : R Json := do
   let outs ← qs.mapM (query t)
   pure (Json.mkObj [("res", "ok"), ("out", ofList outs)])
 
+/-- Suite `evolve` (C14 layout half): the same queries on a container and on its revision. -/
+def handlePair (j : Json) : R Json := do
+  let t ← parseTy (← field j "ty")
+  let t2 ← parseTy (← field j "ty2")
+  if !t.wf || !t2.wf then
+    return Json.mkObj [("res", "rejected")]
+  let qs ← arr (← field j "qs")
+  let outs ← qs.mapM (query t)
+  let outs2 ← qs.mapM (query t2)
+  pure (Json.mkObj [("res", "ok"), ("out", ofList outs), ("out2", ofList outs2)])
+
 end DriverLayout
